@@ -9,6 +9,8 @@
 //!  connection it then uses for the probes)
 //! probe ps -> ok|fail:<text>
 //! probe rr -> ok|fail:<text>
+//! probe shared_calm -> ok|fail:<text>    (a second stalled topic, a calm pair and fresh streams all on one client connection)
+//! probe shared_fresh -> ok|fail:<text>
 //! end
 use crate::net::*;
 use crate::net_srv::{first_reply, frame_of, probe_pubsub, probe_reqrep};
@@ -173,7 +175,31 @@ pub async fn run_case(seed: u64, i: u64, out: &mut String) {
             drop(s);
         }));
     }
-    tokio::time::sleep(Duration::from_millis(400)).await;
+    // ... and publishes to the stalled topic over that connection too: its publisher stream fills up
+    // with bytes the stalled router never reads
+    {
+        let c = probe_client.clone();
+        let topic_a = format!("/{}/{}", ns, tp);
+        background.push(tokio::spawn(async move {
+            use selium::prelude::*;
+            use selium::std::codecs::BytesCodec;
+            let opened = c.publisher(&topic_a).with_encoder(BytesCodec).open().await;
+            if std::env::var("VERIF_DEBUG").is_ok() {
+                eprintln!("bg publisher open -> {:?}", opened.is_ok());
+            }
+            if let Ok(mut p) = opened {
+                // 200 KB messages: the stream takes whatever credit the server grants, to the last byte
+                for k in 0..12 {
+                    let r = tokio::time::timeout(Duration::from_millis(400), p.send(vec![0x33u8; 200 * 1024])).await;
+                    if std::env::var("VERIF_DEBUG").is_ok() {
+                        eprintln!("bg publish {} -> {:?}", k, r.map(|x| x.is_ok()));
+                    }
+                }
+                tokio::time::sleep(Duration::from_secs(30)).await;
+            }
+        }));
+    }
+    tokio::time::sleep(Duration::from_millis(1500)).await;
     let res_ps = match tokio::time::timeout(Duration::from_millis(6000), async {
         let client = probe_client.clone();
         probe_pubsub(&client, &format!("/{}/topic-b{}", ns, i)).await
@@ -200,6 +226,61 @@ pub async fn run_case(seed: u64, i: u64, out: &mut String) {
         Ok(()) => "ok".to_string(),
         Err(e) => format!("fail:{}", e.replace([' ', '\n'], "_").chars().take(80).collect::<String>()),
     });
+    // one more stalled topic, this time entirely on ONE client connection of the client library: a
+    // subscriber that is never polled, a publisher that floods it until its sends stop completing,
+    // and a calm pub/sub pair opened before the stall; the calm pair must still carry a message and
+    // fresh streams must still open on that connection
+    {
+        use futures::StreamExt;
+        use selium::prelude::*;
+        use selium::std::codecs::{BytesCodec, StringCodec};
+        let shared: Result<(String, String), String> = async {
+            let c2 = connect_client(addr, &certs, BackoffStrategy::constant().with_max_attempts(0)).await.map_err(|e| format!("connect:{:?}", e))?;
+            let a2 = format!("/{}/topic-a2x{}", ns, i);
+            let calm = format!("/{}/topic-calm{}", ns, i);
+            let _sub_a2 = c2.subscriber(&a2).with_decoder(BytesCodec).open().await.map_err(|e| format!("sub_a2:{:?}", e))?;
+            let mut calm_sub = c2.subscriber(&calm).with_decoder(StringCodec).open().await.map_err(|e| format!("calm_sub:{:?}", e))?;
+            let mut calm_pub = c2.publisher(&calm).with_encoder(StringCodec).open().await.map_err(|e| format!("calm_pub:{:?}", e))?;
+            let mut pub_a2 = c2.publisher(&a2).with_encoder(BytesCodec).open().await.map_err(|e| format!("pub_a2:{:?}", e))?;
+            tokio::time::sleep(Duration::from_millis(80)).await;
+            let mut sent = 0;
+            for _ in 0..60 {
+                match tokio::time::timeout(Duration::from_millis(700), pub_a2.send(vec![0x44u8; 256 * 1024])).await {
+                    Ok(Ok(())) => sent += 1,
+                    _ => break,
+                }
+            }
+            let calm_res = match tokio::time::timeout(Duration::from_millis(5000), async {
+                calm_pub.send(format!("calm-{}", sent)).await.map_err(|e| format!("send:{:?}", e))?;
+                match calm_sub.next().await {
+                    Some(Ok(m)) if m == format!("calm-{}", sent) => Ok(()),
+                    other => Err(format!("got_{:?}", other.map(|r| r.is_ok()))),
+                }
+            })
+            .await
+            {
+                Ok(Ok(())) => "ok".to_string(),
+                Ok(Err(e)) => format!("fail:{}", e),
+                Err(_) => "fail:deadline".to_string(),
+            };
+            let fresh_res = match tokio::time::timeout(Duration::from_millis(6000), probe_pubsub(&c2, &format!("/{}/topic-fresh{}", ns, i))).await {
+                Ok(Ok(())) => "ok".to_string(),
+                Ok(Err(e)) => format!("fail:{}", e),
+                Err(_) => "fail:deadline".to_string(),
+            };
+            Ok((calm_res, fresh_res))
+        }
+        .await;
+        match shared {
+            Ok((c, f)) => {
+                let _ = writeln!(out, "probe shared_calm -> {}", c.replace([' ', '\n'], "_"));
+                let _ = writeln!(out, "probe shared_fresh -> {}", f.replace([' ', '\n'], "_"));
+            }
+            Err(e) => {
+                let _ = writeln!(out, "harness_error shared:{}", e.replace([' ', '\n'], "_"));
+            }
+        }
+    }
     let _ = writeln!(out, "end");
     for b in background {
         b.abort();
